@@ -172,6 +172,12 @@ func (s *Server) doMergeKeysCommand(conn redcon.Conn, cmdName string, cmd redcon
 	case "exists", "del":
 		cnt := int64(0)
 		for _, ret := range results {
+			if err, ok := ret.(error); ok {
+				// a part that failed must not be counted as "0 keys": its proposal may
+				// still be applied, and the client would take the count for an acknowledgement
+				conn.WriteError(err.Error() + " : ERR handle command " + cmdName)
+				return
+			}
 			if v, ok := ret.(int64); ok {
 				cnt += v
 			}
